@@ -283,6 +283,10 @@ def playback_values(out):
             continue
         pick = b
         break
+    if pick is None and blocks:
+        # Kani prints one test per distinct value vector: when the failing trace has the same values as a
+        # cover witness only the cover's test is printed. Use it; the native replay decides whether it reproduces.
+        pick = blocks[0]
     if pick is None:
         return None
     m = re.search(r'let concrete_vals: Vec<Vec<u8>> = vec!\[(.*?)\];', pick, re.S)
@@ -324,7 +328,7 @@ def run_property(prop, tier, decoders=None, jobs=None):
                     results[h.full] = {"status": "undecided", "detail": "scratch crate does not compile under kani: " + log[-600:], "solver_s": 0, "out": log, "failed_checks": [], "stubs": []}
                     continue
                 # harnesses with a replay decoder print their counterexample (if any) in the same run
-                pb = ["-Z", "concrete-playback", "--concrete-playback=print"] if (h.replay and decoders and h.replay in decoders) else []
+                pb = ["-Z", "concrete-playback", "--concrete-playback=print"] if (h.replay and decoders and h.replay in decoders and not getattr(decoders[h.replay], "static", False)) else []
                 futs[ex.submit(run_one, sc, h, pb)] = h
             for f in concurrent.futures.as_completed(futs):
                 results[futs[f].full] = f.result()
@@ -345,6 +349,8 @@ def run_property(prop, tier, decoders=None, jobs=None):
                 outs[oid] = r["out"]
                 if h.replay and decoders and h.replay in decoders and not ob.finding:
                     vals = playback_values(r["out_full"])
+                    if vals is None and getattr(decoders[h.replay], "static", False):
+                        vals = []
                     if vals is not None:
                         try:
                             ob.replay = decoders[h.replay](vals)
